@@ -49,6 +49,18 @@ CHECKS = {
             'iter_CUs headers, iter_CU_range_lists_ex, translate_v5_entry; expression-vs-list-vs-neither classification over (attribute, form, version) cells.',
             'Trusted: list encoders and the classification table in vf/checks/c07.py, vf/enc/dwarf.py for the DIEs. Cells DWARF v2/v3 leave ambiguous (constant forms on location attributes) are not asserted.',
             'DESIGN.md 4/C07'),
+    'C08': ('Hypothesis-generated relocation tables, RELR streams and relocatable objects + recipe sweep, independent encoders; oracle = model, own RELR expander, psABI formulas with type numbers from the psABI documents; vendored clang-14 cross-compiled objects',
+            'Exploration: REL/RELA sections and DT_REL/RELA/JMPREL/RELR tables (both classes/orders, MIPS64 packed layout) entry by entry; RELR expansion; byte-for-byte result of '
+            'relocating .debug_* sections for every supported (machine, type) pair with boundary symbol values/addends/in-place values at any field offset, relocate on and off; '
+            'error paths (unsupported type, wrong flavour, symbol index out of range, unsupported machine, composite MIPS64) must raise ELFRelocationError.',
+            'Trusted: recipe table vf/ref/c08_reloc.py (transcribed from the psABIs, refereed against readelf -r/-R and llvm-readelf on generated files), vf/enc/elf.py.',
+            'DESIGN.md 4/C08'),
+    'C09': ('Hypothesis-generated dynamic images (two-pass layout through an independent writer) in three container variants + stripping transform on the shipped corpus; oracle = model + metamorphic equality of section / segment / stripped-segment views',
+            'Exploration: dynamic tags up to and including DT_NULL, string-valued tags through sh_link / DT_STRTAB, d_tag naming per machine/OS table, get_table_offset through '
+            'PT_LOADs with p_vaddr != p_offset, dynamic symbols, relocation tables and symbol count recovery (SysV / GNU / both / neither hash) with full section headers, with '
+            'headers stripped and with a .dynamic section whose offset differs from PT_DYNAMIC; the same for 47 shipped dynamic files against an independent mini ELF reader.',
+            'Trusted: image builder and mini reader in vf/enc/c09_img.py (refereed against readelf -d / -D -s / -D -r), vf/enc/elf.py. Where only a GNU table that hashes nothing exists and no pointer delimits .dynsym the count is not judged.',
+            'DESIGN.md 4/C09'),
     'C10': ('model-based history testing: bounded-exhaustive exploration of operation sequences with abstract cache-state hashing + Hypothesis-generated long histories; oracle = the same query on a freshly opened object',
             'Exploration: every query result inside a history (section/symbol access, unit/DIE lookup by offset, parent/children/sibling navigation, reference following, '
             'type units, line programs, CFI and decoded tables, dynamic segment) equals the fresh-object result, with adversarial stream repositioning and suspended generators '
